@@ -149,6 +149,9 @@ func execC08(seg []Ev) []Ev {
 		}
 		// "tl:" arguments: the call is made on a host whose local zone is not UTC
 		time.Local = c08hostZone
+		// every other time the function table exists BEFORE the host's zone is what it is at the call (the zone is read when a
+		// function is called, not when the table is made)
+		collEarly := functions.NewDefaultFunctionCollection()
 		if len(specs) > 0 && strings.HasPrefix(specs[0], "tl:") {
 			time.Local = time.FixedZone("host", 19800)
 		}
@@ -166,6 +169,9 @@ func execC08(seg []Ev) []Ev {
 			"eo": "none", "er": valJSON(nil)}
 		m := c06mgr(mgr)
 		coll := functions.NewDefaultFunctionCollection()
+		if (len(name)+len(specs))%2 == 0 {
+			coll = collEarly
+		}
 		fn := coll.FindByName(name)
 		e["found"] = fn != nil
 		if fn == nil {
